@@ -34,7 +34,8 @@ bool     replaying();
 // Run control (called by the harness main thread).
 struct RunConfig {
     bool     preemptive     = true;   // false: strategy 0 (reference run, non-preemptive lowest id first)
-    uint64_t step_budget    = 2000000;
+    uint64_t step_budget    = 60000000;   // hard cap
+    uint64_t stall_budget   = 600000;     // livelock: this many scheduling steps without any progress() event
     bool     spurious       = true;   // allow spurious wake-ups (decided per run from the tape)
     bool     fresh_tape     = true;   // false: keep drawing from the same tape position (sub-run of a run)
 };
@@ -59,6 +60,10 @@ void debug(const std::string& s);                       // printed to stderr whe
 void note(const std::string& s);                        // free text added to the sample rendering
 void mix_hash(uint64_t v);                              // add to the event-log hash
 
+// Progress marker for the bounded-liveness check: bytes moved through a simulated fd, an element that went through a
+// queue under test, a buffer delivered to the consumer, a thread that started or finished. A run in which threads keep
+// polling (timed waits) without any such event for stall_budget steps is reported as a livelock.
+void progress();
 // explicit scheduling point (harness tasks, H1 hooks)
 void sched_point(const char* name);
 void name_thread(const char* role);                     // role name of the calling thread (used in signatures)
